@@ -227,6 +227,25 @@ func (fc *FuncContract) Mentions(prop string) bool {
 			return true
 		}
 	}
+	for _, cs := range fc.OnWrite {
+		for _, c := range cs {
+			if has(c.Props) {
+				return true
+			}
+		}
+	}
+	for _, cs := range fc.Across {
+		for _, c := range cs {
+			if has(c.Props) {
+				return true
+			}
+		}
+	}
+	for _, a := range fc.ArgFrom {
+		if has(a.Props) {
+			return true
+		}
+	}
 	return false
 }
 
